@@ -7,6 +7,13 @@
 //                          -> "exit=.. ms=.. reply <resp>" | ".. noreply"
 //   rangemap <s>-<e> ...   CHILD process: RangeList::try_from + RangeMap::from(&list)
 //                          -> "exit=.. ms=.. rangemap total=<bytes> probes=<contains_slot(0)>,<contains_slot(16383)>"
+//   sess <seq> [/ <seq>]..  CHILD process (60 s timeout): each <seq> = <pre 0|1> <hex arg>.. runs on a FRESH proxy instance driven
+//                          through the real Session + handle_session over loopback TCP, as ServerProxyService::run does:
+//                          pre=1 first installs metadata (UMCTL SETCLUSTER, one local node owning every slot) on an admin
+//                          connection; connection A sends the admin command <hex arg>..; then A (re-connected if the
+//                          proxy closed it) and B each send PING, GET k, MGET a b, and a new connection C sends PING.
+//                          -> per seq "adm=<r> A=<r>,<r>,<r> B=<r>,<r>,<r> C=<r> panics=<n>[ <first panic message>]"
+//                          r = S:<text>|E|B|N|I|A<n>|closed|err|timeout
 use crate::util::*;
 use crate::{MAXREQ, NREQ, TOTAL, TRACK};
 use arc_swap::ArcSwap;
@@ -25,15 +32,15 @@ use undermoon::common::batch::BatchStrategy;
 use undermoon::common::cluster::{RangeList, RangeMap};
 use undermoon::common::track::TrackedFutureRegistry;
 use undermoon::protocol::{
-    Array, BinSafeStr, BulkStr, DecodedPacket, OptionalMulti, RedisClient, RedisClientError,
-    RedisClientFactory, Resp, RespIndex, RespPacket, RespVec,
+    new_simple_packet_codec, Array, BinSafeStr, BulkStr, DecodedPacket, OptionalMulti, RedisClient,
+    RedisClientError, RedisClientFactory, Resp, RespCodec, RespIndex, RespPacket, RespVec,
 };
 use undermoon::proxy::backend::{BackendError, ConnFactory, ConnSink, ConnStream, CreateConnResult};
 use undermoon::proxy::command::{new_command_pair, Command};
 use undermoon::proxy::executor::SharedForwardHandler;
 use undermoon::proxy::manager::MetaMap;
 use undermoon::proxy::service::{ClusterNodesVersion, ServerProxyConfig};
-use undermoon::proxy::session::{CmdCtx, CmdCtxHandler};
+use undermoon::proxy::session::{handle_session, CmdCtx, CmdCtxHandler, Session};
 use undermoon::proxy::slowlog::SlowRequestLogger;
 
 fn decode_word(input: &[u8]) -> String {
@@ -106,7 +113,13 @@ impl RedisClientFactory for OkClientFactory {
 
 type Handler = SharedForwardHandler<OkClientFactory, FakeConnFactory>;
 
-fn new_handler() -> Handler {
+struct Proxy {
+    config: Arc<ServerProxyConfig>,
+    logger: Arc<SlowRequestLogger>,
+    handler: Handler,
+}
+
+fn new_proxy() -> Proxy {
     let host = "127.0.0.1";
     let self_addr = format!("{}:5299", host);
     let config = Arc::new(ServerProxyConfig {
@@ -114,8 +127,8 @@ fn new_handler() -> Handler {
         announce_address: self_addr,
         announce_host: host.to_string(),
         slowlog_len: NonZeroUsize::new(16).unwrap(),
-        slowlog_log_slower_than: AtomicI64::new(-1),
-        slowlog_sample_rate: AtomicU64::new(1),
+        slowlog_log_slower_than: AtomicI64::new(20000),
+        slowlog_sample_rate: AtomicU64::new(1000),
         thread_number: NonZeroUsize::new(2).unwrap(),
         backend_conn_num: NonZeroUsize::new(1).unwrap(),
         active_redirection: false,
@@ -133,15 +146,21 @@ fn new_handler() -> Handler {
     let meta_map = Arc::new(ArcSwap::new(Arc::new(MetaMap::empty())));
     let (stopped, rx) = mpsc::unbounded();
     std::mem::forget(rx);
-    SharedForwardHandler::new(
+    let logger = Arc::new(SlowRequestLogger::new(config.clone()));
+    let handler = SharedForwardHandler::new(
         config.clone(),
         Arc::new(OkClientFactory),
-        Arc::new(SlowRequestLogger::new(config)),
+        logger.clone(),
         meta_map,
         Arc::new(FakeConnFactory),
         Arc::new(TrackedFutureRegistry::default()),
         stopped,
-    )
+    );
+    Proxy { config, logger, handler }
+}
+
+fn new_handler() -> Handler {
+    new_proxy().handler
 }
 
 async fn send_cmd(handler: &Handler, elems: Vec<Vec<u8>>) -> Option<RespVec> {
@@ -175,6 +194,145 @@ fn cmd_case(args: Vec<Vec<u8>>) -> String {
     })
 }
 
+// ---------- the real session path over loopback TCP ----------
+
+pub static PANICS: std::sync::atomic::AtomicUsize = std::sync::atomic::AtomicUsize::new(0);
+pub static FIRST_PANIC: parking_lot::Mutex<Option<String>> = parking_lot::const_mutex(None);
+
+type ClientFrame = tokio_util::codec::Framed<
+    tokio::net::TcpStream,
+    RespCodec<
+        undermoon::protocol::SimplePacketEncoder<Box<RespPacket>>,
+        undermoon::protocol::SimplePacketDecoder<Box<RespPacket>>,
+    >,
+>;
+
+async fn connect(addr: SocketAddr) -> Option<ClientFrame> {
+    let sock = match tokio::time::timeout(Duration::from_secs(2), tokio::net::TcpStream::connect(addr)).await {
+        Ok(Ok(s)) => s,
+        _ => return None,
+    };
+    let _ = sock.set_nodelay(true);
+    let (e, d) = new_simple_packet_codec::<Box<RespPacket>, Box<RespPacket>>();
+    Some(tokio_util::codec::Framed::new(sock, RespCodec::new(e, d)))
+}
+
+fn class(r: &RespVec) -> String {
+    match r {
+        Resp::Simple(s) => format!("S:{}", String::from_utf8_lossy(&s[..std::cmp::min(s.len(), 12)]).replace(' ', "_")),
+        Resp::Error(_) => "E".to_string(),
+        Resp::Integer(_) => "I".to_string(),
+        Resp::Bulk(BulkStr::Str(_)) => "B".to_string(),
+        Resp::Bulk(BulkStr::Nil) => "N".to_string(),
+        Resp::Arr(Array::Nil) => "N".to_string(),
+        Resp::Arr(Array::Arr(v)) => format!("A{}", v.len()),
+    }
+}
+
+async fn exchange(frame: &mut Option<ClientFrame>, args: &[Vec<u8>]) -> String {
+    let f = match frame.as_mut() {
+        Some(f) => f,
+        None => return "closed".to_string(),
+    };
+    let resp = Resp::Arr(Array::Arr(args.iter().map(|b| Resp::Bulk(BulkStr::Str(b.clone()))).collect()));
+    if f.send(Box::new(RespPacket::Data(resp))).await.is_err() {
+        *frame = None;
+        return "closed".to_string();
+    }
+    match tokio::time::timeout(Duration::from_millis(2500), f.next()).await {
+        Ok(Some(Ok(p))) => class(&p.to_resp_vec()),
+        Ok(Some(Err(_))) => {
+            *frame = None;
+            "err".to_string()
+        }
+        Ok(None) => {
+            *frame = None;
+            "closed".to_string()
+        }
+        Err(_) => "timeout".to_string(),
+    }
+}
+
+async fn run_seq(pre: bool, admin: Vec<Vec<u8>>) -> String {
+    let p0 = PANICS.load(Ordering::SeqCst);
+    let proxy = new_proxy();
+    let listener = match tokio::net::TcpListener::bind("127.0.0.1:0").await {
+        Ok(l) => l,
+        Err(e) => return format!("bind-failed {}", e),
+    };
+    let addr = listener.local_addr().expect("addr");
+    let (config, logger, handler) = (proxy.config.clone(), proxy.logger.clone(), proxy.handler);
+    // the accept loop of ServerProxyService::run
+    let acceptor = tokio::spawn(async move {
+        let mut session_id = 0usize;
+        loop {
+            let sock = match listener.accept().await {
+                Ok((s, _)) => s,
+                Err(_) => break,
+            };
+            let _ = sock.set_nodelay(true);
+            let session = Arc::new(Session::new(session_id, handler.clone(), logger.clone(), config.clone()));
+            session_id += 1;
+            tokio::spawn(async move {
+                let _ = handle_session(session, sock, config_timeout()).await;
+            });
+        }
+    });
+    let b = |s: &str| s.as_bytes().to_vec();
+    if pre {
+        let mut m = connect(addr).await;
+        let set = vec![b("UMCTL"), b("SETCLUSTER"), b("v2"), b("1"), b("NOFLAGS"), b("mydb"), b("127.0.0.1:7000"), b("1"), b("0-16383")];
+        let r = exchange(&mut m, &set).await;
+        if r != "S:OK" {
+            acceptor.abort();
+            return format!("pre-failed {}", r);
+        }
+    }
+    let mut ca = connect(addr).await;
+    let mut cb = connect(addr).await;
+    let adm = exchange(&mut ca, &admin).await;
+    if ca.is_none() {
+        ca = connect(addr).await;
+    }
+    let ordinary: Vec<Vec<Vec<u8>>> = vec![vec![b("PING")], vec![b("GET"), b("k")], vec![b("MGET"), b("a"), b("b")]];
+    let mut ra = vec![];
+    let mut rb = vec![];
+    for c in ordinary.iter() {
+        ra.push(exchange(&mut ca, c).await);
+        rb.push(exchange(&mut cb, c).await);
+    }
+    let mut cc = connect(addr).await;
+    let rc = exchange(&mut cc, &ordinary[0]).await;
+    acceptor.abort();
+    let n = PANICS.load(Ordering::SeqCst) - p0;
+    let msg = if n > 0 {
+        format!(" {}", FIRST_PANIC.lock().clone().unwrap_or_default().replace('/', "|"))
+    } else {
+        String::new()
+    };
+    format!("adm={} A={} B={} C={} panics={}{}", adm, ra.join(","), rb.join(","), rc, n, msg)
+}
+
+fn config_timeout() -> Option<Duration> {
+    None
+}
+
+fn sess_case(toks: Vec<&str>) -> String {
+    let rt = tokio::runtime::Builder::new_multi_thread().worker_threads(2).thread_stack_size(2 << 20).enable_all().build().expect("rt");
+    let mut outs = vec![];
+    for seq in toks.split(|t| *t == "/") {
+        if seq.is_empty() {
+            continue;
+        }
+        let pre = seq[0] == "1";
+        let admin: Vec<Vec<u8>> = seq[1..].iter().map(|h| unhex(h)).collect();
+        *FIRST_PANIC.lock() = None;
+        outs.push(rt.block_on(run_seq(pre, admin)));
+    }
+    rt.shutdown_timeout(Duration::from_millis(200));
+    outs.join(" / ")
+}
+
 fn rangemap_case(spec: &[&str]) -> String {
     let s = format!("{} {}", spec.len(), spec.join(" "));
     let list = match RangeList::try_from(s.as_str()) {
@@ -196,13 +354,28 @@ fn run_direct(line: &str) -> String {
         Some("hostile") => decode_word(&unhex(it.next().unwrap_or("-"))),
         Some("cmd") => cmd_case(it.map(unhex).collect()),
         Some("rangemap") => rangemap_case(&it.collect::<Vec<_>>()),
+        Some("sess") => sess_case(it.collect::<Vec<_>>()),
         other => format!("unknown-kind {:?}", other),
     }
 }
 
 // child process: one case on a thread with a 2 MiB stack (the size of a tokio worker stack)
 pub fn child_main(line: &str) {
-    std::panic::set_hook(Box::new(|_| {}));
+    std::panic::set_hook(Box::new(|info| {
+        PANICS.fetch_add(1, Ordering::SeqCst);
+        let mut g = FIRST_PANIC.lock();
+        if g.is_none() {
+            let loc = info.location().map(|l| format!("{}:{}", l.file(), l.line())).unwrap_or_default();
+            let msg = if let Some(s) = info.payload().downcast_ref::<&str>() {
+                s.to_string()
+            } else if let Some(s) = info.payload().downcast_ref::<String>() {
+                s.clone()
+            } else {
+                "?".to_string()
+            };
+            *g = Some(format!("{} at {}", msg, loc).replace('\n', " "));
+        }
+    }));
     let l = line.to_string();
     let h = std::thread::Builder::new()
         .stack_size(2 << 20)
@@ -292,6 +465,7 @@ pub fn run_case(_rt: &tokio::runtime::Runtime, line: &str) -> String {
     match kind {
         "alloc" => run_direct(line),
         "hostile" | "cmd" | "rangemap" => in_child(line, 15000),
+        "sess" => in_child(line, 60000),
         _ => format!("unknown-kind {}", kind),
     }
 }
